@@ -122,7 +122,7 @@ def requestedOk (d : Dialect) (r : Req) (fin : ColState) : Bool :=
   (match r.serverDefault with | .unset => true | .drop => fin.default == none | .set v => defaultIs fin.default v) &&
   (match r.newName with | some n => fin.name == n | none => fin.name == r.column) &&
   (match r.comment with | .unset => true | .drop => fin.comment == none | .set c => fin.comment == normC (some c)) &&
-  (match r.autoinc with | some a => !d.isMySQL || fin.autoinc == a | none => true)
+  (!d.isMySQL || (match r.autoinc with | some a => fin.autoinc == a | none => true))
 
 /-- every attribute that was not requested keeps its value, unless a statement restates it and
 its existing value was not stated -/
